@@ -49,6 +49,21 @@ def do_check(module, obname, timeout):
         return res
     from crosshair.core_and_libs import analyze_function, run_checkables
     from crosshair.options import AnalysisOptionSet
+    from crosshair.statespace import StateSpace
+
+    # CrossHair's "premature realisation" heuristic re-explores concrete values of int
+    # arguments in a parallel branch (good for bug hunting, costs ~3x paths before the tree
+    # is exhausted).  Exhaustion is what these checks need, so the branch is never taken.
+    if os.environ.get("VF_KEEP_PREMATURE") != "1" and not getattr(StateSpace, "_vf_patched", False):
+        _orig_fp = StateSpace.fork_parallel
+
+        def _fp(self, false_probability, desc=""):
+            if desc.startswith("premature realize"):
+                return False
+            return _orig_fp(self, false_probability, desc)
+
+        StateSpace.fork_parallel = _fp
+        StateSpace._vf_patched = True
 
     stats = collections.Counter()
     opts = AnalysisOptionSet(
